@@ -39,18 +39,21 @@ class ReSearch(Contract):
     """re.Pattern.search(buffer, pos): None, or a match object m with pos <= m.start() <= m.end() <= len(buffer).
     ReFind(r, buffer, pos) names the selected start (-1 = none); which occurrence the engine selects is the
     regex engine's business (assumed: leftmost from pos, per the re documentation)."""
-    params = ['r', 'buffer', 'pos']
-    defaults = {'pos': 0}
+    params = ['r', 'buffer', 'pos', 'endpos']
+    defaults = {'pos': 0, 'endpos': None}
 
     def outcomes(self, v):
         def mk(interp, pre):
             from pyvc.values import VAny
             import z3
-            return VAny(ReMatch(pre.a.r, pre.a.buffer, pre.a.pos if is_sym(pre.a.pos) else z3.IntVal(pre.a.pos)), notnone=True)
+            buf = pre.a.buffer if pre.a.endpos is None else sub(pre.a.buffer, 0, pre.a.endpos)
+            return VAny(ReMatch(pre.a.r, buf, pre.a.pos if is_sym(pre.a.pos) else z3.IntVal(pre.a.pos)), notnone=True)
         return [Ret(T.NoneT, 'nomatch'), Ret(T.Any, 'match', make=mk)]
 
     def ensures(self, v):
         r, buf, pos = v.old.r, v.old.buffer, v.old.pos
+        if v.old.endpos is not None:
+            buf = sub(buf, 0, v.old.endpos)          # the search sees only buffer[:endpos]
         f = re_find(r, buf, pos)
         if v.label == 'nomatch':
             return [('none', eq(f, -1))]
